@@ -86,7 +86,9 @@ def param_pools(model, owner, func, cls):
     for n in names:
         ann = sig.parameters[n].annotation
         ann_s = kinds.get(n) or (ann if isinstance(ann, str) else (ann.__name__ if inspect.isclass(ann) else str(ann)))
-        if n == 'self':
+        if getattr(cls, 'gen_' + n, None) is not None:
+            pools.append(list(getattr(cls, 'gen_' + n)(model)))
+        elif n == 'self':
             oname = owner.__name__
             if oname == 'Relation':
                 pools.append(rels)
@@ -242,7 +244,24 @@ def describe_arg(v, model):
         return {'model': True}
     if tn == 'Constraint':
         return {'ctc': [id(c) for c in model.ctcs].index(id(v))}
+    if tn == 'Element':
+        return {'elem': elem_json(v)}
+    if type(v).__module__.startswith('flamapy.'):
+        return {'new': f'{type(v).__module__}:{type(v).__name__}'}
     return {'value': repr(v)}
+
+
+def elem_json(e):
+    return {'tag': e.tag, 'text': e.text, 'attrib': dict(e.attrib), 'kids': [elem_json(k) for k in e]}
+
+
+def elem_build(j):
+    from xml.etree.ElementTree import Element
+    e = Element(j['tag'], dict(j.get('attrib') or {}))
+    e.text = j.get('text')
+    for k in j.get('kids', []):
+        e.append(elem_build(k))
+    return e
 
 
 def models_for(scope, seed):
@@ -275,7 +294,7 @@ def main():
     want = set(x for x in a.funcs.split(',') if x)
     for (path, qualname), classes in api.REGISTRY.items():
         for cls in classes:
-            if cls._prop != a.prop or getattr(cls, 'native', True) is False:
+            if (cls._prop != a.prop and a.prop not in getattr(cls, '_also', ())) or getattr(cls, 'native', True) is False:
                 continue
             if want and f'{path}:{qualname}' not in want and qualname not in want:
                 continue
